@@ -64,6 +64,8 @@ type Contract struct {
 	ChanState  bool // obligations: no send on / close of a closed channel, over ghost(closed, ch)
 	Criticals  [][2]string // critical A .. B: no mutex release on a path from the call of A to the call of B
 	Exhaustive []int       // loop ordinals that must be left only through their header
+	ErrorsFrom []string    // errorsfrom A, B: every returned error originates in a call of one of these
+	HasErrorsFrom bool
 	RecvNonNil bool
 	Params     []string // optional explicit parameter names (for externals)
 	Results    []string
@@ -297,6 +299,17 @@ func ParseSpecFile(path string, pkgName string) (*SpecFile, error) {
 				errs = append(errs, fmt.Sprintf("%s:%d: critical <callee> .. <callee>", path, ln))
 			} else {
 				cur.Criticals = append(cur.Criticals, [2]string{strings.TrimSpace(parts[0]), strings.TrimSpace(parts[1])})
+			}
+		case "errorsfrom":
+			// errorsfrom A, B, ...: every non-nil error the function returns is (a wrapper
+			// of) an error returned by a call of one of the named callees, or by a callee
+			// that carries an errorsfrom clause itself — the function adds no error of
+			// its own (in particular none that depends on the content of a request)
+			cur.HasErrorsFrom = true
+			for _, n := range strings.Split(rest, ",") {
+				if n = strings.TrimSpace(n); n != "" {
+					cur.ErrorsFrom = append(cur.ErrorsFrom, n)
+				}
 			}
 		case "chanstate":
 			// sends and closes in this function are checked against ghost(closed, ch):
